@@ -281,6 +281,37 @@ def dead_end_ladder_case(ctx, idx, rng):
         check_graph(ctx, nu, nv, edges, nu - 1, budget=(sc, 50 * n * n + 1000))
 
 
+def wide_case(ctx, idx, rng):
+    """Very UNBALANCED graphs: a handful of U vertices against hundreds to 70000 V vertices (what the first sites of a long-range Hamiltonian produce: few
+    left nodes, thousands of tails), sparse edges, U vertices that share their only neighbour (so that 'all of U' is a cover but not a minimum one), and
+    vertex pairs whose indices coincide modulo 2**16 / 2**8 ((u, v) next to (u + 1, v - 65536): packed edge keys). Reference: Kuhn's algorithm (depth <= |U|)."""
+    swap = bool(idx % 4 == 3)
+    nu = int(rng.integers(2, 9))
+    nv = int(rng.choice([300, 700, 2600, 66000, 70000])) if idx % 3 else int(rng.integers(257 * nu, 400 * nu))
+    edges = []
+    shared = int(rng.integers(0, nv))
+    nshare = int(rng.integers(2, nu + 1)) if rng.random() < 0.7 else 0
+    for u in range(nshare):
+        edges.append((u, shared))                             # these U vertices share their only neighbour
+    for u in range(nshare, nu):
+        for v in rng.integers(0, nv, size=int(rng.integers(1, 5))):
+            edges.append((u, int(v)))
+    for step in (1 << 16, 1 << 8):
+        if nv > step + 2 and rng.random() < 0.7:
+            u0 = int(rng.integers(0, nu - 1))
+            v0 = int(rng.integers(0, nv - step))
+            edges += [(u0, v0 + step), (u0 + 1, v0)] if rng.random() < 0.5 else [(u0 + 1, v0), (u0, v0 + step)]
+    if rng.random() < 0.5:
+        edges = [edges[int(k)] for k in rng.permutation(len(edges))]
+    edges = list(dict.fromkeys(edges)) if rng.random() < 0.5 else edges
+    if swap:
+        nu, nv, edges = nv, nu, [(v, u) for u, v in edges]
+    ref = refs.max_matching_kuhn(nu, nv, edges) if not swap else refs.max_matching_kuhn(nv, nu, [(v, u) for u, v in edges])
+    ctx.case(('wide', 'V>>U' if not swap else 'U>>V', 'V>65536' if max(nu, nv) > 65536 else ('ratio>256' if max(nu, nv) > 256 * min(nu, nv) else 'ratio<=256'),
+              'shared-only-neighbour' if nshare else 'no-shared'), sample={'nu': nu, 'nv': nv, 'edges': edges[:20]})
+    check_graph(ctx, nu, nv, edges, ref)
+
+
 def insitu_case(ctx, idx, rng):
     """minimum_vertex_cover as driven by from_opchains while compiling real Hamiltonians and random chain lists."""
     seen = [0]
@@ -372,6 +403,7 @@ SPEC = {
         Workload('random', random_case, quick=600, thorough=100000),
         Workload('staircase', staircase_case, quick=400, thorough=60000),
         Workload('deep', deep_case, quick=12, thorough=240),
+        Workload('wide', wide_case, quick=60, thorough=1500),
         Workload('dead-end-ladders', dead_end_ladder_case, quick=12, thorough=360),
         Workload('insitu', insitu_case, quick=60, thorough=6000),
         Workload('suite-soak', soak_case, quick=0, thorough=1, shardable=False),
